@@ -58,9 +58,9 @@ CommandSignature ShellCommand::getSignature() const {
     for (const auto& path: depsPaths) {
       code = code.combine(path);
     }
-    code = code.combine(int(depsStyle));
-    code = code.combine(int(inheritEnv));
-    code = code.combine(int(canSafelyInterrupt));
+    code = code.combine(uint64_t(depsStyle));
+    code = code.combine(inheritEnv);
+    code = code.combine(canSafelyInterrupt);
   }
   signature = code;
   if (signature.isNull()) {
